@@ -101,6 +101,9 @@ class LifecycleRun:
             return ("none",)
         if self.disabled == "unix_disabled":
             if s == "" or s[0] in MARKERS:
+                # the configured marker may be longer than one character (e.g. Solaris' "*LK*")
+                if len(self.marker) > 1 and s.startswith(self.marker):
+                    return ("disabled", s[len(self.marker):] or None)
                 return ("disabled", s[1:] or None)
             return ("enabled", s)
         if s.startswith("!"):
@@ -158,7 +161,7 @@ class LifecycleRun:
             want_embedded = None
             if with_hash:
                 want_embedded = cur if st[0] == "enabled" else st[1] if st[0] == "disabled" else None
-            ctx.check(new[0] in MARKERS and (new[1:] or None) == want_embedded, "C18", "disabled-record-shape",
+            ctx.check(new.startswith(self.marker) and (new[len(self.marker):] or None) == want_embedded, "C18", "disabled-record-shape",
                       lambda: f"disable({arg!r}) -> {new!r}; expected one marker + {want_embedded!r}", scheme=self.disabled)
         rec["cur"] = new
         self.judge_disabled(rec)
